@@ -6,12 +6,15 @@
 // declarations) depends on LINE NUMBERS, and line numbers are what `//line` and `/*line*/` directives rewrite.
 //
 // (1) cmt-* families: every sequence of "pieces" (directives shifting line numbers up and down, an inline /*line*/
-//     directive, line comment, inline comment, multi-line comment, blank line, `;`, two items of the frame) concatenated
-//     WITHOUT separators (a //line directive is only one in column 1) inside six frames: top level, before the
-//     package clause, inside `var (`, inside a struct type, inside an interface type, inside a func body.
+//
+//	directive, line comment, inline comment, multi-line comment, blank line, `;`, two items of the frame) concatenated
+//	WITHOUT separators (a //line directive is only one in column 1) inside six frames: top level, before the
+//	package clause, inside `var (`, inside a struct type, inside an interface type, inside a func body.
+//
 // (2) linedir family: corpus files with one directive inserted at the start of a line: every line that starts with a
-//     token gets the shifting-up directive; every top-level declaration, its doc comment and the file start get all
-//     three directives in both corpus modes.
+//
+//	token gets the shifting-up directive; every top-level declaration, its doc comment and the file start get all
+//	three directives in both corpus modes.
 package main
 
 import (
@@ -69,7 +72,8 @@ var (
 		uint(goparser.ParseComments | goparser.DeclarationErrors | goparser.SkipObjectResolution),
 		uint(goparser.ParseComments | goparser.AllErrors),
 	}
-	gnoMode = []uint{uint(goparser.ParseComments | goparser.DeclarationErrors)}
+	pcModesQuick = []uint{uint(goparser.ParseComments | goparser.DeclarationErrors), uint(goparser.ParseComments | goparser.AllErrors)} // gnolang, gnofmt
+	gnoMode      = []uint{uint(goparser.ParseComments | goparser.DeclarationErrors)}
 )
 
 // ---------------------------------------------------------------------------------------------
